@@ -50,9 +50,13 @@ type context struct {
 	// conditional, and "" otherwise: the text after the next template node must not
 	// complete the end tag, which neither text node shows to the transition functions.
 	endTagOpen string
-	// foreign reports that an svg or math element is open: there an HTML parser does not
-	// switch to raw text for script and style elements, so their content is markup.
-	foreign bool
+	// foreign lists the open svg and math elements ("s", "m", outermost first): inside one
+	// an HTML parser does not switch to raw text for script and style elements, so their
+	// content is markup.
+	foreign string
+	// foreignTag reports that the start tag of such an element has not ended yet (it may
+	// end with "/>", which closes the element at once).
+	foreignTag bool
 }
 
 // eq returns whether Context c is equal to Context d.
